@@ -50,6 +50,7 @@ def faults_for(length):
         out.append({"mode": "kill-write", "prefix": p})
         out.append({"mode": "raise-write", "prefix": p, "error": "nospace"})
     out.append({"mode": "short-oswrite", "prefix": max(1, length // 2)})
+    out.append({"mode": "kill-after-replace"})
     return out
 
 
@@ -92,6 +93,7 @@ def run_case(run, drv, case_seed, pool):
                 spec["req"] = {k: (None if v is object else v) for k, v in f["req"].items()} \
                     if False else _jsonable(f["req"])
             jobs.append((f, path, pool.submit(inject, spec, box)))
+        second_edit_after_crash(run, rng, box, m, req, pool)
         for f, path, fut in jobs:
             rc, obs, err = fut.result()
             killed = rc == 37
@@ -142,6 +144,33 @@ def run_case(run, drv, case_seed, pool):
                 drv.ask(f"editerror 2 {f['prefix']} {hx(old)} {hx(new)}", ("state", fc, verdict))
             elif unenc:
                 drv.ask(f"editerror 9 0 {hx(old)} none", ("state", fc, verdict))
+
+
+def second_edit_after_crash(run, rng, box, m, req, pool):
+    """An edit dies after writing '<metafile>.part' (before the rename); a later, fault-free
+    edit of the same metafile must leave exactly its own complete result."""
+    path = os.path.join(box, "seq.torrent")
+    shutil.copy(m["path"], path)
+    old = open(path, "rb").read()
+    long_req = dict(req, comment="a rather long comment " * 40)
+    rc, obs, err = inject({"mode": "kill", "k": 1, "metafile": path, "req": long_req}, box)
+    after_crash = open(path, "rb").read() if os.path.exists(path) else None
+    short_req = {"comment": "s"}
+    good = os.path.join(box, "seq-good.torrent")
+    with open(good, "wb") as fd:
+        fd.write(old)
+    impl.edit(good, dict(short_req))
+    want = open(good, "rb").read()
+    rc2, obs2, err2 = inject({"mode": "none", "metafile": path, "req": short_req}, box)
+    final = open(path, "rb").read() if os.path.exists(path) else None
+    case = {"sequence": "crash before rename, then a clean edit", "version": m["version"]}
+    run.case(["sequence", m["version"]], True, sample=case, classes=["sequence"])
+    if after_crash != old:
+        run.fail("impl-vs-spec", case, {"why": "metafile changed by the interrupted edit"})
+    elif final != want:
+        run.fail("impl-vs-spec", case, {"why": "clean edit after an interrupted one did not leave "
+                                                "exactly its result",
+                                         "size": None if final is None else len(final), "expected": len(want)})
 
 
 def _jsonable(req):
